@@ -54,6 +54,8 @@ type Handler struct {
 	// Hook, when set, runs inside every handler callback right after it was recorded (on the
 	// library goroutine that invoked the callback).
 	Hook func(cb CB)
+	// WrapAuthErr: authentication failures are reported wrapped (fmt.Errorf("...: %w", ErrServerAuth{})).
+	WrapAuthErr bool
 	// NoForward: the handler does not write publishers' packets into the
 	// stream itself (OnRTP does it).
 	NoForward bool
@@ -177,7 +179,7 @@ func (h *Handler) OnSessionClose(ctx *gortsplib.ServerHandlerOnSessionCloseCtx) 
 func (h *Handler) OnDescribe(ctx *gortsplib.ServerHandlerOnDescribeCtx) (*base.Response, *gortsplib.ServerStream, error) {
 	h.add(CB{Kind: "describe", Conn: ctx.Conn, Path: ctx.Path, Query: ctx.Query})
 	if h.authFail(ctx.Conn, ctx.Request) {
-		return &base.Response{StatusCode: base.StatusUnauthorized}, nil, errAuth()
+		return &base.Response{StatusCode: base.StatusUnauthorized}, nil, h.errAuth()
 	}
 	if c := h.status(base.Describe, ctx.Path); c != base.StatusOK {
 		return &base.Response{StatusCode: c}, nil, nil
@@ -193,7 +195,7 @@ func (h *Handler) OnDescribe(ctx *gortsplib.ServerHandlerOnDescribeCtx) (*base.R
 func (h *Handler) OnAnnounce(ctx *gortsplib.ServerHandlerOnAnnounceCtx) (*base.Response, error) {
 	h.add(CB{Kind: "announce", Conn: ctx.Conn, Session: ctx.Session, Path: ctx.Path, Query: ctx.Query})
 	if h.authFail(ctx.Conn, ctx.Request) {
-		return &base.Response{StatusCode: base.StatusUnauthorized}, errAuth()
+		return &base.Response{StatusCode: base.StatusUnauthorized}, h.errAuth()
 	}
 	if c := h.status(base.Announce, ctx.Path); c != base.StatusOK {
 		return &base.Response{StatusCode: c}, nil
@@ -221,7 +223,7 @@ func (h *Handler) OnSetup(ctx *gortsplib.ServerHandlerOnSetupCtx) (*base.Respons
 		h.OnSetupExtra(ctx)
 	}
 	if h.authFail(ctx.Conn, ctx.Request) {
-		return &base.Response{StatusCode: base.StatusUnauthorized}, nil, errAuth()
+		return &base.Response{StatusCode: base.StatusUnauthorized}, nil, h.errAuth()
 	}
 	if c := h.status(base.Setup, ctx.Path); c != base.StatusOK {
 		return &base.Response{StatusCode: c}, nil, nil
@@ -240,7 +242,7 @@ func (h *Handler) OnSetup(ctx *gortsplib.ServerHandlerOnSetupCtx) (*base.Respons
 func (h *Handler) OnPlay(ctx *gortsplib.ServerHandlerOnPlayCtx) (*base.Response, error) {
 	h.add(CB{Kind: "play", Conn: ctx.Conn, Session: ctx.Session, Path: ctx.Path, Query: ctx.Query})
 	if h.authFail(ctx.Conn, ctx.Request) {
-		return &base.Response{StatusCode: base.StatusUnauthorized}, errAuth()
+		return &base.Response{StatusCode: base.StatusUnauthorized}, h.errAuth()
 	}
 	if c := h.status(base.Play, ctx.Path); c != base.StatusOK {
 		return &base.Response{StatusCode: c}, nil
@@ -252,7 +254,7 @@ func (h *Handler) OnPlay(ctx *gortsplib.ServerHandlerOnPlayCtx) (*base.Response,
 func (h *Handler) OnRecord(ctx *gortsplib.ServerHandlerOnRecordCtx) (*base.Response, error) {
 	h.add(CB{Kind: "record", Conn: ctx.Conn, Session: ctx.Session, Path: ctx.Path, Query: ctx.Query})
 	if h.authFail(ctx.Conn, ctx.Request) {
-		return &base.Response{StatusCode: base.StatusUnauthorized}, errAuth()
+		return &base.Response{StatusCode: base.StatusUnauthorized}, h.errAuth()
 	}
 	if c := h.status(base.Record, ctx.Path); c != base.StatusOK {
 		return &base.Response{StatusCode: c}, nil
@@ -325,7 +327,14 @@ func (h *Handler) HadWriteError(ss *gortsplib.ServerSession) bool {
 	return false
 }
 
-func errAuth() error { return liberrors.ErrServerAuth{} }
+// errAuth is how the application reports an authentication failure: the library's error value, bare
+// or (WrapAuthErr) wrapped with %w, as an application that adds context does.
+func (h *Handler) errAuth() error {
+	if h.WrapAuthErr {
+		return fmt.Errorf("authentication failed for this request: %w", liberrors.ErrServerAuth{})
+	}
+	return liberrors.ErrServerAuth{}
+}
 
 // CanonErr renders an error for the canonical log. The library's "must be in state [a b c]" errors
 // list the allowed states in map order, which differs from run to run: the bracketed list is sorted.
